@@ -1,5 +1,7 @@
 """C02 -- the loader is total (scope: tokenizer, XML header, byte trimming)."""
-from contracts import trim, lexer
+import copy
+
+from contracts import trim, lexer, parser_funnel
 
 WS_ALPHA = b' \nA<'
 TOK_ALPHA = b'<>?!/-="\'\n a0x'
@@ -13,7 +15,13 @@ def check(ctx):
     thorough = ctx.tier == 'thorough'
     lexer.check_decls(ctx.scratch.dir)
     ctx.verus_unit(trim.UNIT, finder=dict(module='parser', check='trim', alphabet=WS_ALPHA, maxlen=5))
-    ctx.verus_unit(lexer.UNIT, finder=LEX_FINDERS)
+    # the lexer unit carries the parser's line/funnel functions too (new, next, error, optional_error, check_version):
+    # `next` is the only writer of the parser's line and copies a line the lexer proved to be in range
+    unit = copy.copy(lexer.UNIT)
+    parser_funnel.check_decls(ctx.scratch.dir)
+    unit = parser_funnel.extend(unit, ctx.scratch.dir)
+    ctx.verus_unit(unit, finder=LEX_FINDERS)
+    parser_funnel.frame_scan_line(ctx, ctx.scratch.dir)
     maxlen = 8 if thorough else 6
     ctx.kani('autosar-data', [dict(name='trim_len%d' % n, module='parser', kind='bounded', bound='input length == %d, all byte values' % n,
                                   timeout=120, desc='unmodified trim_byte_string against the executable contract (cross-check of the desugared Verus text)', covers_optional=(n < 2))
@@ -25,6 +33,33 @@ def check(ctx):
                     'real ArxmlLexer::next driven to EOF/error: no panic, <= 2*len+2 calls, line in 1..=1+newlines')
     ctx.native_enum('lexer-next-xml-header', dict(module='lexer', check='lex', alphabet=HDR_ALPHA, maxlen=7 if thorough else 6, prefix=b'<?xml '),
                     'same, on buffers starting with "<?xml "')
+    # API-level (bounded) check of the statement itself: lines of errors/warnings, no panic, header probe vs loading
+    from vxlib import corpus
+    from vxlib.common import Obligation, run
+    b = ctx.native()
+    multi = [corpus.doc('<SYSTEM\n  BLA="1"\n  UUID="x"><SHORT-NAME>Sys</SHORT-NAME></SYSTEM>'), corpus.doc('<SYSTEM\n\n\nS="a" T="ASPICE"><SHORT-NAME\n>Sys</SHORT-NAME\n></SYSTEM\n>'),
+             corpus.doc(corpus.SYS % '<!-- a\ncomment\n-->\n<CATEGORY\n>x</CATEGORY>')]
+    docs = [d.encode() for d in corpus.OWN_VALID + corpus.OWN_DEFECT + multi] + [d for _, d in corpus.fixtures(ctx.scratch.dir)]
+    p = ctx.scratch.path('c02_corpus.txt')
+    with open(p, 'w') as f:
+        for d in docs:
+            f.write(d.hex() + '\n')
+    rc, out, err, secs = run([b, 'api', 'lines', p, '1'], timeout=1800)
+    ctx.t('native-enum', secs)
+    line = (out.strip().splitlines() or [''])[-1]
+    name = 'native/api-load-lines-and-probe'
+    bound = '%d documents + every single-byte deletion, newline insertion and truncation of each' % len(docs)
+    if line.startswith('OK'):
+        ctx.add(Obligation(ctx.prop, name, 'native-eval', 'bounded', 'discharged', seconds=secs, bound=bound,
+                           detail='load_buffer strict+lenient and check_buffer: no panic; every error/warning line in 1..=1+newlines; a buffer that loads is accepted by check_buffer [%s inputs]' % line[3:]))
+    elif line.startswith('FAIL'):
+        msg, _, dochex = line[5:].partition(' :: document ')
+        ob = ctx.add(Obligation(ctx.prop, name, 'native-eval', 'bounded', 'failed', seconds=secs, bound=bound, detail=msg))
+        ob.witness = dict(input_hex=dochex.strip(), input_text=bytes.fromhex(dochex.strip()).decode('utf-8', 'replace'), observed=msg, via='public API: AutosarModel::load_buffer / check_buffer',
+                          replay=['api', 'lines1', dochex.strip()])
+        ctx._record_violation(ob)
+    else:
+        ctx.undecided.append('%s: no result (rc=%s) %s' % (name, rc, (out + err)[-300:]))
     return ctx.finish(
         explanation='Verus proves, on the real text of ArxmlLexer::{new,next,read_*}, count_lines and trim_byte_string, for buffers of every length: no index/slice/overflow panic, termination (decreases), the representation invariant, 1 <= line <= 1+newlines for every token and error, and progress (measure decreases on every non-EOF token). Kani and a native exhaustive enumeration cross-check the unmodified text on short inputs (bounded, listed separately). Not covered: parse_attribute_text, parse_character_data, unescape_string, parse_element/parse_arxml and check_buffer beyond the tokens (DESIGN 4, C02).',
         checker_cmd='verus generated/{trim,lexer}.rs --output-json --time (regenerated from /repo working tree on every run); cargo kani --harness trim_len* --harness count_lines_len*',
